@@ -873,7 +873,7 @@ class Prop:
             "in-place step on the other one; (ii) pure sweeps: every tensor- or value-returning operation (%d + %d of "
             "them, incl. metrics with dense operands, sensitivity analysis with un-normalised marginals, ttm matrices, "
             "index arrays as list/NumPy/torch, creation from dense arrays, cross) on each format of the N=2 lattice; "
-            "(iii) seeded random histories of 5..40 steps mixing all %d operations. After every step all live tensors "
+            "(iii) view chains (slices of transposes of unsqueezed ... tensors, in-place methods anywhere in the family) and seeded random histories of 5..40 steps mixing all %d operations. After every step all live tensors "
             "(dense value by an independent NumPy contraction of the raw cores, bit patterns, core kinds, factor "
             "presence, shapes/ranks, torch _version counters) and all argument arrays passed so far are compared with "
             "their state before the step. Non-trivial = at least one step executed; distinct = distinct (formats, "
@@ -921,7 +921,7 @@ class Prop:
         for d in DERIVE_OPS:
             for ip in INPLACE_OPS:
                 for direction in ("source", "derived"):
-                    reps = 1 if quick else 4
+                    reps = 2 if quick else 6
                     for rep in range(reps):
                         N = rng.randint(2, 3)
                         kinds = plain(N) if (ip.startswith("setitem") and rng.random() < 0.7) else None
@@ -935,7 +935,7 @@ class Prop:
         fmts = [list(k) for k in itertools.product(KINDS, repeat=2)] + [[k] for k in KINDS] + \
                [[rng.choice(KINDS) for _ in range(3)] for _ in range(4 if quick else 24)]
         for kinds in fmts:
-            for rep in range(1 if quick else 3):
+            for rep in range(2 if quick else 6):
                 shape = [rng.choice([2, 3]) for _ in kinds]
                 pool = [rand_tensor_json(rng, shape, kinds, maxr=2), rand_tensor_json(rng, shape, None, maxr=2)]
                 order = pure[:]; rng.shuffle(order)
@@ -950,9 +950,25 @@ class Prop:
             pool = [rand_tensor_json(rng, [2] * N, None, maxr=2, lo=0, hi=1) for _ in range(2)]
             mk(pool, [step(o, rng.randrange(2), rng.randrange(2)) for o in
                       ["logic", "logic_queries", "sobol", "mask", "truncate_anova", "anova", "mean_dimension", "logic_queries"]], "logic")
-        # ---- (iii) random histories
+        # ---- (iii) view chains: storage-sharing derivations of derivations, in-place methods anywhere in the family
+        views = ["getitem_slices", "transpose", "unsqueeze", "squeeze", "decompress", "getitem", "unbind", "clone", "flip", "tt"]
+        for _ in range(250 if quick else 2000):
+            N = rng.randint(1, 3)
+            pool = same_shape_pool(1, N, plain(N) if rng.random() < 0.4 else None)
+            hist = [step(rng.choice(views[:6]), 0)]
+            for _s in range(rng.randint(4, 10)):
+                k = rng.random()
+                nslots = 1 + sum(OPCLASS[h["op"]] == "new" for h in hist)
+                if k < 0.45:
+                    hist.append(step(rng.choice(views), rng.randrange(nslots)))
+                elif k < 0.9:
+                    hist.append(step(rng.choice(INPLACE_OPS), rng.randrange(nslots), rng.randrange(nslots)))
+                else:
+                    hist.append(step(rng.choice(["torch", "norm", "sum", "info", "dot"]), rng.randrange(nslots), rng.randrange(nslots)))
+            mk(pool, hist, "view-chain")
+        # ---- (iv) random histories
         light = [o for o in OPS if o not in SLOW_OPS]
-        for _ in range(400 if quick else 3000):
+        for _ in range(1000 if quick else 6000):
             npool = rng.randint(1, 5)
             k = rng.random()
             if k < 0.3:                                     # no Tucker factors: assignment works on these
@@ -981,6 +997,7 @@ class Prop:
 
     # ------------------------------------------------------------------------------------------ runner
     def run(self, case):
+        torch.manual_seed(0); np.random.seed(0)          # cross / ALS / rand_like draw from the global generators
         pool = [to_tn(tj) for tj in case["pool"]]
         init = [dense_of(t).reshape(-1).tolist() for t in pool]
         init_shape = [list(dense_of(t).shape) for t in pool]
